@@ -736,6 +736,8 @@ def history_features(case, obs=None, upto=None):
                 feats.add("RenameOverFile")
             if gh.clean_rename(st, dur):
                 feats.add("CleanRename")
+            if st[3] in gh.gdirs and Ghost.rename_ok(fs, st[2], st[3]):
+                feats.add("RenameOntoRemovedDir")
         if name in ("rmdir", "rmdir_all") and fs.kind(st[2]) == "dir":
             feats.add("RemoveDir")
         if name in ("mkdir", "mkdir_all") and fs.kind(st[2]) is None:
@@ -1424,6 +1426,22 @@ KNOWN_CLASSES = ["RootOp", "RenameSelf", "StaleHandle", "RenameDir", "RenameFile
 # what the Coq theorems exclude (FsSafe classes): any successful rename of a regular file, not
 # only the defective ones
 THEOREM_EXCLUDED = ["RootOp", "RenameSelf", "StaleHandle", "RenameDir", "RenameFileAny", "RecreateAny", "KindSwap"]
+# what the rename-inclusive theorems (Known.v: c07_crash_image_renames_partial, c10_refines_renames_partial)
+# exclude beyond the known classes
+RENAME_THEOREM_EXTRA = ["RecreateAny", "RenameOntoRemovedDir"]
+
+
+def rename_theorem_side_condition(case, feats, unspecified=False):
+    """python rendering of FsKnown.ksafe_enc for a one-host script: alphabet (no create_dir_all /
+    remove_dir_all, renames within one directory), no known class, none of the extra exclusions,
+    no crash on a dangling durable subtree"""
+    for st in case["steps"]:
+        nm = st[0].split("@")[0]
+        if nm in ("mkdir_all", "rmdir_all"):
+            return False
+        if nm == "rename" and (st[2] == "/" or st[3] == "/" or parent(st[2]) != parent(st[3])):
+            return False
+    return not (set(feats) & set(KNOWN_CLASSES)) and not (set(feats) & set(RENAME_THEOREM_EXTRA)) and not unspecified
 
 
 def known_class(case, obs, step):
